@@ -203,6 +203,54 @@ func runC07(w *mon.W) {
 		}
 		_ = ti
 	}
+	// the same table value optimised, re-weighted in place and optimised again (histories of length 3..6)
+	nReuse := w.Pick(300, 4000)
+	for k := 0; k < nReuse; k++ {
+		id := fmt.Sprintf("reuse-%d", k)
+		idx++
+		if !w.Want(id, idx) {
+			continue
+		}
+		r := w.Rand(id)
+		tid := tableIDs[r.Intn(len(tableIDs))]
+		tbl := deepTable(tid)
+		w.Begin(id, fmt.Sprintf("table %d optimised and re-weighted in place repeatedly", tid))
+		rounds := 3 + r.Intn(4)
+		for round := 0; round < rounds; round++ {
+			if round > 0 {
+				// re-weight the very same table value (OptimizeTable mutates it in place)
+				base := snapshot(tbl)
+				weights := map[string]int{}
+				for _, l := range base.letters() {
+					first := true
+					for c := range base.AA[l] {
+						if first || r.Intn(3) != 0 {
+							weights[c] = 1 + r.Intn(80)
+						} else {
+							weights[c] = 0
+						}
+						first = false
+					}
+				}
+				tbl = tbl.OptimizeTable(codingSequenceFor(r, weights))
+			}
+			snap := snapshot(tbl)
+			var letters []string
+			for _, l := range snap.letters() {
+				if snap.total(l) > 0 {
+					letters = append(letters, l)
+				}
+			}
+			n := 20 + r.Intn(300)
+			var sb strings.Builder
+			for i := 0; i < n; i++ {
+				sb.WriteString(letters[r.Intn(len(letters))])
+			}
+			c07Optimize(w, id, tbl, snap, fmt.Sprintf("table %d after %d in-place re-weightings", tid, round), sb.String(), nil)
+			w.Add("optimize_after_inplace_reweighting", 1)
+		}
+		w.End()
+	}
 	// unencodable inputs
 	nBad := w.Pick(300, 3000)
 	for k := 0; k < nBad; k++ {
